@@ -827,7 +827,11 @@ class UpdateStatement(AssignmentStatement):
         container_update_type = ContainerUpdateClause.type_map.get(col_type)
         if container_update_type:
             previous = column.to_database(previous)
-            clause = container_update_type(column.db_field_name, value, operation, previous)
+            if col_type == columns.Map and operation is None and previous is None:
+                # a whole-map assignment overwrites the column, like for sets and lists
+                clause = AssignmentClause(column.db_field_name, value)
+            else:
+                clause = container_update_type(column.db_field_name, value, operation, previous)
         elif col_type == columns.Counter:
             clause = CounterUpdateClause(column.db_field_name, value, previous)
         else:
